@@ -71,6 +71,8 @@ pub fn variants() -> Vec<Variant> {
         var("break-after-or", |s| s.or_break = true),
         var("break-in-lists", |s| s.list_break = true),
         var("break-in-filters", |s| s.filter_break = true),
+        var("space-before-list-commas", |s| s.list_comma_first = 1),
+        var("comma-first-lists", |s| s.list_comma_first = 2),
         var("opneg=not", |s| s.opneg_bang = false),
         var("eol-comments", |s| s.eol_comment = true),
         var("comment-lines", |s| s.comment_lines = true),
